@@ -150,6 +150,45 @@ theorem reversibleSegment_sound (db : DB) (fsb : Nat) (start : Ref) (l : List En
   subst hl
   exact ⟨hp, ht, hnl, hlast, hall⟩
 
+/-! ### heights carried by a reversible segment -/
+
+/-- when the walk starts with the stored height of its start block, every entry of the segment carries the height
+    the buffer stores for it -/
+theorem revSegAux_nums (db : DB) (fsb : Nat) (fuel : Nat) (cur : Id) (curNum : Nat) (acc l : List Entry) (r : Bool)
+    (h : db.revSegAux fsb fuel cur curNum acc = (some l, r))
+    (hcur : ∀ e, db.find cur = some e → e.blk.num = curNum) :
+    ∃ pre, l = pre ++ acc ∧ ∀ x ∈ pre, ∃ e0, db.find x.blk.id = some e0 ∧ e0.blk.num = x.blk.num := by
+  induction fuel generalizing cur curNum acc with
+  | zero => simp [DB.revSegAux] at h
+  | succ n ih =>
+    unfold DB.revSegAux at h
+    split at h
+    · simp at h
+    · split at h
+      · simp only [Prod.mk.injEq, Option.some.injEq] at h
+        exact ⟨[], by rw [← h.1]; rfl, by simp⟩
+      · split at h
+        · split at h
+          · simp at h
+          · simp only [Prod.mk.injEq, Option.some.injEq] at h
+            exact ⟨[], by rw [← h.1]; rfl, by simp⟩
+        · rename_i e he
+          obtain ⟨pre, hl, hall⟩ := ih _ _ _ h (fun e' he' => (numOf_of_find db _ e' he').symm)
+          refine ⟨pre ++ [⟨{ e.blk with num := curNum }, e.sent⟩], by rw [hl]; simp, ?_⟩
+          intro x hx
+          simp only [List.mem_append, List.mem_singleton] at hx
+          rcases hx with hx | rfl
+          · exact hall x hx
+          · exact ⟨e, by simp only [find_id db cur e he]; exact he, hcur e he⟩
+
+theorem reversibleSegment_nums (db : DB) (fsb : Nat) (start : Ref) (l : List Entry) (r : Bool)
+    (h : db.reversibleSegment fsb start = (some l, r))
+    (hs : ∀ e, db.find start.id = some e → e.blk.num = start.num) :
+    ∀ x ∈ l, ∃ e0, db.find x.blk.id = some e0 ∧ e0.blk.num = x.blk.num := by
+  obtain ⟨pre, hl, hall⟩ := revSegAux_nums db fsb _ _ _ _ _ _ h hs
+  simp only [List.append_nil] at hl
+  subst hl; exact hall
+
 /-! ### ChainSwitchSegments -/
 
 /-- consecutive elements are child, parent -/
